@@ -106,6 +106,33 @@ def int_mat(M):
 # Arnoldi
 
 
+def arnoldi_reference_defect(A, x0, N):
+    """orthogonality defect of the Krylov basis that single-pass modified Gram-Schmidt in the order v_0 … v_k produces
+    in float arithmetic for (A, x0) after N steps — computed by an independent numpy re-implementation, NOT read from
+    the solver under test (a bug that corrupts the solver's basis must not switch the checks off)"""
+    w = np.asarray(x0, dtype=complex)
+    nrm = np.linalg.norm(w)
+    basis = []
+    for _ in range(N):
+        if nrm == 0:
+            break
+        w = w / nrm
+        basis.append(w)
+        w = A @ w
+        for v in basis:
+            w = w - np.vdot(v, w) * v
+        nrm = np.linalg.norm(w)
+    V = np.array(basis).T
+    return float(np.abs(V.conj().T @ V - np.eye(V.shape[1])).max()) if V.size else 0.0
+
+
+def unchanged(tag, before, after_arr, fails, what):
+    """the caller's arguments must not be modified by a solver"""
+    after = after_arr.to_ndarray()
+    if before.shape != after.shape or np.linalg.norm(before - after) > 0:
+        fails.append(('property', f'{tag}.modifies-its-argument.{what}', f'|before - after| = {np.linalg.norm(before - after)!r}'))
+
+
 def order_ok(E, which):
     E = np.asarray(E)
     key = {'LM': -np.abs(E), 'LR': -np.real(E), 'SR': np.real(E)}[which]
@@ -140,17 +167,23 @@ def eval_arnoldi(case):
     E0 = np.array(E0)
     N = int(N)
     info['N'] = N
+    info['num_ev'] = opts['num_ev']
+    unchanged('arnoldi', inp['v0'], psi, fails, 'psi0')
+    unchanged('arnoldi', inp['M'], H, fails, 'H')
     # single-pass Gram-Schmidt in the order v_0 … v_k removes the large components (along v_k, v_{k-1}) last; an
     # existing orthogonality error eps_jk is fed back multiplied by |alpha_k|/beta_k, so with a spectrum far from 0
     # (e.g. after E_shift) orthogonality decays like (|alpha|/beta)^k in floats.  The exact-arithmetic statements
-    # are only compared where the basis actually kept is orthonormal; tolerances widen with the measured defect.
-    Vk = np.array([c.to_ndarray()[idx] for c in eng._cache]).T.reshape(d, len(eng._cache))
-    defect = float(np.abs(Vk.conj().T @ Vk - np.eye(Vk.shape[1])).max()) if Vk.size else 0.0
+    # are only compared where an independent numpy replica of the same float algorithm keeps the basis orthonormal;
+    # tolerances widen with that reference defect.
+    defect = arnoldi_reference_defect(Hs + (opts.get('E_shift') or 0.0) * np.eye(d), x0, N)
     info['defect'] = defect
     if defect > 1e-7:
         info['skipped'] = 'orthogonality-lost'
         return fails, lines, info
     slack = 100 * defect
+    if len({id(p) for p in psis}) != len(psis) or any(p is psi or p is c for p in psis for c in eng._cache):
+        fails.append(('property', 'arnoldi.returned-vectors-alias-each-other-or-the-basis',
+                      f'{len({id(p) for p in psis})} distinct objects for {len(psis)} vectors'))
     sh = opts.get('E_shift') or 0.0
     nv = min(N, opts['num_ev'])
     if len(psis) != nv:
@@ -253,6 +286,8 @@ def eval_arnoldi_evo(case):
         v, N = eng.run(delta, case['normalize'])
     except Exception as e:  # noqa
         return [('property', 'arnoldi_evo.run.raises-on-valid-input', f'{type(e).__name__}: {str(e)[:100]}')], [], {}
+    unchanged('arnoldi_evo', inp['v0'], psi, fails, 'psi0')
+    unchanged('arnoldi_evo', inp['M'], H, fails, 'H')
     v = v.to_ndarray()
     if np.linalg.norm(np.delete(v, idx)) > 1e-12:
         fails.append(('property', 'arnoldi_evo.result-leaves-charge-sector', ''))
@@ -305,6 +340,9 @@ def eval_gmres(case):
         x, res, terr, its = g.run()
     except Exception as e:  # noqa
         return [('property', 'gmres.run.raises-on-valid-input', f'{type(e).__name__}: {str(e)[:100]} opts={opts}')], [], {}
+    unchanged('gmres', inp['v0'], bn, fails, 'b')
+    unchanged('gmres', inp['M'], A, fails, 'A')
+    unchanged('gmres', np.asarray(x0 + 0 * inp['v0']) if np.any(x0) else 0 * inp['v0'], xn, fails, 'x0')
     xf = x.to_ndarray()
     if np.linalg.norm(np.delete(xf, idx)) > 1e-12:
         fails.append(('property', 'gmres.result-leaves-charge-sector', ''))
